@@ -1,7 +1,7 @@
 (* C01 — property statements only.  [tol] = SMOOTH_K_TOLERANCE, [kscale] = MIN_K_DIST_SCALE
    (any positive values; the current source values are checked positive on every run). *)
 From Coq Require Import List ZArith Reals Sorting.Sorted.
-From UV Require Import Num M_smooth T_smooth.
+From UV Require Import Num M_smooth T_smooth T_smooth_conv.
 Import ListNotations.
 Local Open Scope R_scope.
 
@@ -56,6 +56,16 @@ Theorem C01_scale : forall tol c row ninf index interp sigma, 0 < c -> sigma <> 
 Proof. intros tol c row ninf index interp sigma Hc Hs. split; [exact (rho_scale tol c row ninf index interp Hc)|].
   exact (calibration_scale tol c row ninf index interp sigma Hc Hs). Qed.
 Print Assumptions C01_scale.
+
+(* convergence of the search: whenever some bandwidth sigma* in [2^-L, 2^L] attains the target total and
+   n_iter >= 2L+1+J, the bandwidth found calibrates the row to within tol (search stopped on its tolerance test) or
+   (k-1)/2^J (steps exhausted).  With the source's n_iter = 64: L = 20 (data scales 1e-6..1e6), J = 23. *)
+Theorem C01_calibrated : forall tol row rho target sstar J L n, 0 < tol -> 0 < sstar ->
+  psum RNum row rho sstar = target -> / 2 ^ L <= sstar <= 2 ^ L -> (2 * L + 1 + J <= n)%nat ->
+  let s := fst (bisect RNum tol n (psum RNum row rho) target 0 None 1) in
+  Rabs (psum RNum row rho s - target) < tol \/ Rabs (psum RNum row rho s - target) <= INR (length (tl row)) / 2 ^ J.
+Proof. exact bisect_converges. Qed.
+Print Assumptions C01_calibrated.
 
 Example C01_nonvacuous :
   StronglySorted Rle ex_row /\ (1 <= length (nonzero RNum ex_row))%nat /\
